@@ -362,6 +362,22 @@ def run(ctx):
     ctx.assumptions.append("proposal classes return points whose logP/logL fields are what they claim (C09 covers the in-package proposals)")
 
 
+    # ------------------------------------------------------------------
+    # C01.9 "each discarded point is recorded exactly once" over the run's whole history, resumes included: a periodic
+    # checkpoint written between the recording of the removed point and its replacement makes the resumed run remove and
+    # record the same point again.  The interval analysis is C13's (effect counters over consume_sample's CFG); the
+    # obligations about *periodic* checkpoint sites (C13.4) are adopted here under this property's name.
+    from ..core import Ctx as _Ctx, Ob as _Ob
+    from . import C13 as _c13
+
+    sub_ = _Ctx("C13", prog, ctx.tier, ctx.seed)
+    _c13.run(sub_)
+    for o_ in sub_.obs:
+        if o_.clause == "C13.4":
+            ctx.obs.append(_Ob(o_.rule, "C01.9", o_.where, o_.construct, o_.ok, o_.detail, o_.loc))
+    ctx.floor("C01.9", 3)
+
+
 def _parent_assign(fnode, target):
     for n in ast.walk(fnode):
         if isinstance(n, ast.Assign) and any(t is target for t in n.targets):
@@ -444,6 +460,7 @@ MUTANTS = [
     {"id": "finalise-nlive-schedule", "file": _F, "old": "nlive=self.nlive - i)", "new": "nlive=self.nlive - i - 1)", "expect": "live count decreases"},
     {"id": "finalise-constant-nlive", "file": _F, "old": 'self.state.increment(p["logL"], nlive=self.nlive - i)', "new": 'self.state.increment(p["logL"])', "expect": "live count decreases"},
     {"id": "pool-field-order", "file": "nessai/proposal/flowproposal.py", "old": "        return rfn.repack_fields(\n            x[self.model.names + config.livepoints.non_sampling_parameters]\n        )", "new": "        keep = self.model.names + config.livepoints.non_sampling_parameters\n        return rfn.drop_fields(x, [n for n in x.dtype.names if n not in keep], usemask=False)", "expect": "canonical field order"},
+    {"id": "update-state-in-retry", "file": _F, "old": "                self.rejected += 1\n                self.check_state()\n", "new": "                self.rejected += 1\n                self.update_state()\n                self.check_state()\n", "expect": "call `self.update_state` that can write a periodic checkpoint"},
     {"id": "finalise-skip-append", "file": _F, "old": "            self.nested_samples.append(p)\n        self.live_points = None", "new": "            if i:\n                self.nested_samples.append(p)\n        self.live_points = None", "expect": "paired once per remaining point"},
 ]
 
